@@ -1,6 +1,6 @@
 """The registered checks.  One function per property; each: rebuild, model check, generate, drive, validate (TLC), triage, evidence."""
 import json, os, random, sys, time, collections, struct
-import vlib, formats, scen, gen_core, gen_env, gen_c03, gen_conv
+import vlib, formats, scen, gen_core, gen_env, gen_c03, gen_conv, gen_seeds
 from vlib import Infra, log
 
 RATE = 8000
@@ -107,6 +107,11 @@ def _fmts(exe, tier, chans):
     return formats.writable(exe, chans=chans, rate=RATE)
 
 
+def _fmts_endian(exe, chans):
+    """(fmt | explicit endian option, ch) accepted by the library, for the encodings where byte order means something"""
+    return [(f, c) for f, c in formats.writable(exe, chans=chans, rate=RATE, endians=(0x10000000, 0x20000000, 0x30000000)) if scen.sub(f) in (2, 3, 4, 6, 7)]
+
+
 # ---------------------------------------------------------------------------------------------
 def c01(tier):
     t0 = time.time()
@@ -126,6 +131,13 @@ def c01(tier):
             classes = [lc] + steps if tier == "quick" else [lc, ("ext", 0) if lc[1] == 0 else lc, ("zeros", 0), ("ramp", 0) if lc[1] == 0 else lc] + steps
             classes = list(dict.fromkeys(classes))
             gen_core.wr_scenarios(S, fmt, ch, RATE, [T], Ns, rng, splits=0 if tier == "quick" else 2, seeks=False, classes=classes)
+    # every endianness option (LITTLE, BIG, CPU) of the multi-byte encodings the container accepts it for
+    for fmt, ch in _fmts_endian(exe, chans):
+        for T in "sifd":
+            lc = scen.lossless_class(fmt, T)
+            if lc:
+                gen_core.wr_scenarios(S, fmt, ch, RATE, [T], [0, 5, 300] if tier == "quick" else [0, 1, 5, 300, 4097], rng, splits=0 if tier == "quick" else 1, seeks=False,
+                                      classes=[lc], cfg={"en": fmt >> 28})
     mcs = [gen_core.mc_rw("W", 0, tag=tier[0], maxwrites=1 if tier == "quick" else 2)]
     return core_check("C01", tier, mcs, S.lines, "DESIGN.md section 6 C01",
                       "every (major, subtype) the library enumerates and sf_format_check accepts x channels x caller type for which the spec's Lossless() holds x N around block edges x value classes; write, close, re-open, read back, equality decided by TraceCore (ReadOK against the content written)", t0)
@@ -147,6 +159,9 @@ def c04(tier):
             for stale in ([0, 1000000000] if tier == "quick" else [0, 1, 1000000000]):
                 gen_core.wr_scenarios(S, fmt, ch, rate, ["s"] if stale else ["s", "f"], Ns, rng, stale=stale, splits=1 if tier == "quick" else 3, seeks=False,
                                       cfg={"stale": stale, "rate": rate})
+    # byte order options: the re-opened file reports the same effective byte order (InfoMatches / EffOrder) and the same count
+    for fmt, ch in _fmts_endian(exe, (1, 2)):
+        gen_core.wr_scenarios(S, fmt, ch, RATE, ["s", "f"] if tier != "quick" else ["s"], [1, 33], rng, splits=0, seeks=False, cfg={"en": fmt >> 28, "stale": 0, "rate": RATE})
     mcs = [gen_core.mc_rw("W", 0, tag=tier[0], maxwrites=1 if tier == "quick" else 2)]
     return core_check("C04", tier, mcs, S.lines, "DESIGN.md section 6 C04",
                       "all writable formats x channels x rates x N in {0,1,B-1,B,B+1,..} x splits x stale SF_INFO.frames; re-open must report the parameters and N <= F < N+B, reads deliver F frames then 0 (OpenWrittenOK, ReadOK)", t0)
@@ -308,6 +323,25 @@ def c09(tier):
                 for rep in range(2 if tier == "quick" else 5):
                     gen_core.invalid_calls(S, fmt, ch, RATE, mode, rng)
                 gen_core.invalid_probe(S, fmt, ch, RATE, mode, rng)
+    # invalid metadata calls after valid ones: empty text, unknown string types, sets after the audio, sets on a read handle;
+    # what was stored before must come back after close and re-open (SetMetaPost keeps the model's metadata on failure)
+    for fmt in [0x10002, 0x20002, 0x180002, 0x220002, 0x130002] + ([] if tier == "quick" else [0x10006, 0x20004, 0x180006, 0xb0002, 0x30002]):
+        for ch in (1, 2):
+            S.scn(fmt="0x%x" % fmt, ch=ch, T="s", kind="metainv")
+            S.add("file 1 new", "open 0 vio w 1 %d %d %d" % (fmt, ch, RATE))
+            for ty, tx in ((1, b"Title"), (2, b"Copyright"), (4, b"Artist"), (5, b"Comment"), (6, b"2001-02-03")):
+                S.add("setstr 0 %d %s" % (ty, tx.hex()))
+            S.add("setmeta 0 cues 3 4 2")
+            for ty in (1, 4, 6):
+                S.add("setstr 0 %d -" % ty, "errq 0", "getstr 0 %d" % ty)
+            S.add("setstr 0 0 4142", "setstr 0 99 4142", "setstr 0 -1 4142", "getstr 0 99", "errq 0")
+            S.add("write 0 s f 20 gen lbz %d 0" % rng.randint(1, 10 ** 6))
+            S.add("setstr 0 2 -", "setstr 0 5 -", "setmeta 0 cues 7 2 1", "setmeta 0 bext 3 5 10", "errq 0", "write 0 s f 3 gen lbz %d 0" % rng.randint(1, 10 ** 6), "close 0")
+            S.add("open 1 vio r 1 0 %d %d" % (ch, RATE))
+            S.add("setstr 1 1 58595a", "errq 1", "setmeta 1 cues 9 2 1", "errq 1")
+            for ty in (1, 2, 3, 4, 5, 6):
+                S.add("getstr 1 %d" % ty)
+            S.add("getmeta 1 cues 0 0", "read 1 s f 30", "close 1")
     # failing opens: unknown formats, zero channels, garbage input
     S.scn(kind="badopen")
     S.add("file 1 new", "open 0 vio w 1 0 1 8000", "open 0 vio w 1 0x10002 0 8000", "open 0 vio w 1 0x10002 1 0", "open 0 vio w 1 0x19990002 1 8000",
@@ -439,7 +473,8 @@ def c16(tier):
     od = os.path.join(vlib.ROOT, "out", "C16", tier)
     os.makedirs(od, exist_ok=True)
     seeds = gen_c03.seed_files(exe, fmts, RATE, od)
-    gen_c03.scenarios(S, seeds, rng, 40 if tier == "quick" else 600, routes=("vio", "fd", "path"), ncalls=4, systematic=True)
+    gen_c03.scenarios(S, seeds, rng, 40 if tier == "quick" else 600, routes=("vio", "fd", "path"), ncalls=4, systematic=1 if tier == "quick" else 2)
+    gen_c03.scenarios(S, gen_seeds.crafted(), rng, 40 if tier == "quick" else 600, routes=("vio", "fd", "path"), ncalls=4, systematic=2)
     mcs = [gen_core.mc_rw("R", 2, tag=tier[0])]
     return core_check("C16", tier, mcs, S.lines, "DESIGN.md section 6 C16",
                       "metadata-rich files mutated at header fields (failing at many parse depths after allocations); heap (ASan allocator statistics minus the driver's own blocks), descriptor table and private TMPDIR compared before the first and after the last call of every scenario (EndOK), and around every failing open (OpenFailedOK): valid files truncated at every cut point (failures at each parse depth) on vio/fd/path routes, handles closed without I/O, handles with failed calls",
@@ -480,7 +515,7 @@ def c10(tier):
     rates = [-1, 0, 1, 8000, 44100, 2147483647]
     if tier == "quick":
         # on every change: a sub-grid that still reaches every rejection rule (bounds of channels and rate, every format word)
-        chans = [0, 1, 2, 9, 1025]
+        chans = [0, 1, 2, 3, 9, 256, 257, 1024, 1025]
         rates = [0, 1, 44100]
     enum_lines = []
     for kind, cnt in (("major", len(en["majors"])), ("subtype", len(en["subtypes"])), ("simple", len(en["simple"]))):
@@ -622,7 +657,11 @@ def c03(tier):
     seeds = gen_c03.seed_files(exe, fmts, RATE, od)
     S = scen.Script()
     per = 110 if tier == "quick" else 1200
-    gen_c03.scenarios(S, seeds, rng, per, routes=("vio", "vio", "fd", "pipe") if tier == "thorough" else ("vio", "vio", "vio", "fd", "pipe"), ncalls=10 if tier == "quick" else 16, systematic=(tier == "thorough"))
+    gen_c03.scenarios(S, seeds, rng, per, routes=("vio", "vio", "fd", "pipe") if tier == "thorough" else ("vio", "vio", "vio", "fd", "pipe"), ncalls=10 if tier == "quick" else 16, systematic=(2 if tier == "thorough" else 0))
+    # hand-built files with the chunk types the library reads but never writes (INST + MARK + COMT + APPL; smpl + cue + adtl + inst + acid):
+    # random mutants plus the systematic near-value and hostile-value passes over every header field
+    crafted = gen_seeds.crafted()
+    gen_c03.scenarios(S, crafted, rng, per, routes=("vio", "vio", "fd"), ncalls=8 if tier == "quick" else 16, systematic=2)
     mcs = [gen_core.mc_rw("R", 2, tag=tier[0])]
     return core_check("C03", tier, mcs, S.lines, "DESIGN.md section 6 C03",
                       "valid files of every writable format (with strings and a custom chunk) mutated: hostile values substituted into 1/2/4/8 byte header fields in both byte orders, truncation at header offsets, bit flips, duplicated/deleted/moved header slices, random bytes behind the magic, pure garbage; %d seeds x %d mutants, routes vio/fd/pipe; after a successful open a random sequence of reads (4 types, items/frames/raw), seeks (every whence), string/info/peak/CALC queries, chunk iteration, close; TraceCore hostile class: NULL+error+message or sane SF_INFO, counts/positions/guard bands, every call returns (watchdog), ASan, ledger" % (len(seeds), per),
@@ -825,10 +864,45 @@ def c02(tier):
             near = [1 - 2.0 ** -24, -(1 - 2.0 ** -24), 1 - 2.0 ** -23, 1 - 2.0 ** -16, -(1 - 2.0 ** -23), 1 - 2.0 ** -10, 0.75, -0.75, 2.0 ** -23, 3 * 2.0 ** -24, -3 * 2.0 ** -24]
             for big in (0, 1):
                 G.enc(S, sub, big, T, G.val_tokens(T, [1.0, -1.0, 1.5, -1.5, 2.0, -2.0, 0.0, 0.5, -0.5, 0.25] + near), clip=1)
+    # G.711 targets: every short, ints with and without low bits, every stored code through the four types
+    for sub in (0x10, 0x11):
+        for i in range(0, len(shorts), 16384):
+            G.enc(S, sub, 0, "s", G.val_tokens("s", shorts[i:i + 16384]))
+        G.enc(S, sub, 0, "i", G.val_tokens("i", ints))
+        G.enc(S, sub, 0, "i", G.val_tokens("i", [v * 65536 for v in range(-32768, 32768, 3)]))
+        for T in "sifd":
+            G.dec(S, sub, 0, T, bytes(range(256)))
     mcs = [_conv_mc()]
+    xparts = _c02_xtype(tier)
     return core_check("C02", tier, mcs, S.lines, "DESIGN.md section 6 C02",
                       "headerless files of PCM_S8, PCM_U8, PCM_16, PCM_24, PCM_32 (little and big endian): all 65536 short inputs and ~30000 int inputs written, file bytes compared with CodeOfInt/BytesOf; every 8 and 16 bit stored code (boundary + 3000 random codes for 24/32 bit) read through short/int/float/double with normalisation on and off (exact dyadic comparison, float rounding of 32 bit codes modelled); float and double writes of every point of the 8 and 16 bit target grids (nearest integer to x*(2^(w-1)-1), float product rounded to 24 bits = D2), clipping on: saturation incl. +-1.0, +-1.5, +-2.0 for 8/16/24/32 bit; normalisation off: unscaled nearest integer",
-                      t0, module="TraceConv.tla", cfg="TraceConv.cfg")
+                      t0, module="TraceConv.tla", cfg="TraceConv.cfg", extra_parts=xparts)
+
+
+def _c02_xtype(tier):
+    """agreement of the four caller types on every integer-coded encoding in every container (TraceCore, XTypeOK):
+    the data is written (or, for lossy codecs, learnt by a first read as int), then read again as short, float and double"""
+    exe = vlib.build()
+    rng = random.Random(vlib.SEED + 2)
+    S = scen.Script()
+    for fmt, ch in _fmts(exe, tier, (1, 2) if tier == "quick" else (1, 2, 3)):
+        sb = scen.sub(fmt)
+        if sb in (6, 7) or scen.major(fmt) == scen.SD2:
+            continue
+        B = scen.block_hint(fmt, ch, RATE)
+        N = B + 7 if B > 1 else 120
+        lc = scen.lossless_class(fmt, "i")
+        Tw, (cls, par) = ("i", lc) if lc else ("s", ("noise", 0))
+        S.scn(fmt="0x%x" % fmt, ch=ch, T=Tw, kind="xtype", fmode=1)
+        S.add("file 1 new", "open 0 vio w 1 %d %d %d" % (fmt, ch, RATE), "write 0 %s f %d gen %s %d %d" % (Tw, N, cls, rng.randint(1, 10 ** 6), par), "close 0",
+              "open 1 vio r 1 %d %d %d" % (fmt if scen.major(fmt) == scen.RAW else 0, ch, RATE))
+        for T in "isfd":
+            S.add("seek 1 0 0", "read 1 %s f %d" % (T, N + 3))
+        k = rng.randint(1, max(1, N - 5))
+        for T in "dfsi":
+            S.add("seek 1 %d 0" % k, "read 1 %s i %d" % (T, 3 * ch))
+        S.add("close 1")
+    return [(S.lines, "TraceCore.tla", "TraceCore.cfg", "xtype")]
 
 
 CMD_NAMES = ["GET_LIB_VERSION", "GET_LOG_INFO", "GET_CURRENT_SF_INFO", "GET_NORM_DOUBLE", "GET_NORM_FLOAT", "SET_NORM_DOUBLE", "SET_NORM_FLOAT",
@@ -869,7 +943,9 @@ def c17(tier):
             lines.append("scn %d kind=c17 name=%s hmode=%s fmt=%s" % (sid, nm, mode, "0x%x" % fmt if fmt else "0"))
             if fmt:
                 T = gen_core.type_for(fmt)
-                lines += ["file 1 new", "open 0 fd w 1 %d %d %d" % (fmt, ch, RATE), "setstr 0 1 5469746c65", "write 0 %s f 40 gen noise 3 0" % T, "close 0",
+                # the file carries every metadata item its container takes, so that the get commands have something to copy out
+                lines += ["file 1 new", "open 0 fd w 1 %d %d %d" % (fmt, ch, RATE), "setstr 0 1 5469746c65", "setmeta 0 bext 4 9 30", "setmeta 0 cart 5 6 12", "setmeta 0 cues 3 5 3",
+                          "setmeta 0 inst 2 1 1", "setmeta 0 chmap 1 1", "write 0 %s f 40 gen noise 3 0" % T, "close 0",
                           "open 0 fd %s 1 %d %d %d" % (mode, fmt, ch, RATE)]
                 if mode != "w":
                     lines.append("read 0 %s f 3" % T)
